@@ -169,7 +169,8 @@ char *strstr(const char *h, const char *n)
     return NULL;
 }
 #ifdef NULL_OVERRIDE
-/* libc's strdup requires a string (glibc dereferences the argument): its precondition as a named obligation */
+/* libc's strdup requires a string (glibc dereferences the argument): its precondition as a named obligation
+ * (job lookup_override.null_string only; the other jobs use CBMC's own strdup model) */
 char *strdup(const char *s)
 {
     V_ASSERT(s != NULL, "C38.lookup_override.pre.strdup_never_called_with_null_override");
@@ -323,34 +324,53 @@ void h_lookup_override(void)
     for (int i = 0; i < SLEN; i++) ov_str[i] = vin.sval[K_OVERRIDE][i];
     if (vin.type == 0) p->mbp_override_value.intval = vin.ival[K_OVERRIDE];
     else if (vin.type == 1) p->mbp_override_value.sizetval = vin.zval[K_OVERRIDE];
-    else {
-#ifdef NULL_OVERRIDE
-        /* parsec_mca_param_set_string(index, NULL): param_set_override stores NULL and sets the flag */
-        V_ASSUME(vin.override_set);
-        p->mbp_override_value.stringval = NULL;
-#else
-        p->mbp_override_value.stringval = ov_str;
-#endif
-    }
+    else p->mbp_override_value.stringval = vin.snull[K_OVERRIDE] ? NULL : ov_str;   /* set_string(index, NULL) is accepted */
     parsec_mca_param_storage_t st;
     st.sizetval = vin.storage0;
 
     bool r = lookup_override(p, &st);
 
-#ifdef NULL_OVERRIDE
-    V_ASSUME(vin.type == 2);
-    V_ASSERT(r && st.stringval == NULL, "C38.lookup_override.post.null_string_override_resolves_to_null");
-#else
     V_ASSERT(r == (vin.override_set != 0), "C38.lookup_override.post.found_iff_override_flag_set");
     if (r) {
         if (vin.type == 0) V_ASSERT(st.intval == vin.ival[K_OVERRIDE], "C38.lookup_override.post.int_value_is_override");
         else if (vin.type == 1) V_ASSERT(st.sizetval == vin.zval[K_OVERRIDE], "C38.lookup_override.post.sizet_value_is_override");
+        else if (vin.snull[K_OVERRIDE]) V_ASSERT(st.stringval == NULL, "C38.lookup_override.post.null_string_override_yields_null");
         else V_ASSERT(st.stringval != NULL && st.stringval != ov_str && str_eq(st.stringval, ov_str),
                       "C38.lookup_override.post.string_value_is_fresh_copy_of_override");
     } else
         V_ASSERT(st.sizetval == vin.storage0, "C38.lookup_override.post.storage_untouched_when_absent");
-#endif
     V_CANARY("lookup_override");
+}
+
+static void build_env(void);
+static void build_file_list(void);
+/* (B1') a string parameter overridden with NULL (parsec_mca_param_set_string(index, NULL): param_set_override
+ * stores NULL and sets the flag), resolved through the real param_lookup and the real lookup_override:
+ * the override wins, the value is NULL, and libc's strdup is never handed NULL (fixed in 4ba9c5d). */
+void h_null_override(void)
+{
+    vin_load();
+    parsec_mca_param_t *p = build_param();
+    build_env();
+    build_file_list();
+    V_ASSUME(vin.type == 2 && !vin.read_only);
+    p->mbp_override_value_set = true;
+    p->mbp_override_value.stringval = NULL;
+    p->mbp_file_value_set = false;
+    assume_string(vin.sval[K_DEFAULT]);
+    for (int i = 0; i < SLEN; i++) df_str[i] = vin.sval[K_DEFAULT][i];
+    p->mbp_default_value.stringval = df_str;
+    parsec_mca_param_storage_t st;
+    st.sizetval = vin.storage0;
+    parsec_mca_param_source_t src = MCA_PARAM_SOURCE_MAX;
+
+    bool r = lookup_override(p, &st);
+    V_ASSERT(r && st.stringval == NULL, "C38.lookup_override.post.null_string_override_found_and_null");
+    st.sizetval = vin.storage0;
+    r = param_lookup(vin.index, &st, &src, NULL);
+    V_ASSERT(r && src == MCA_PARAM_SOURCE_OVERRIDE, "C38.param_lookup.post.null_string_override_still_wins");
+    V_ASSERT(st.stringval == NULL, "C38.param_lookup.post.null_string_override_resolves_to_null");
+    V_CANARY("null_override");
 }
 
 /* ------------------------------------------------------------------ */
